@@ -48,7 +48,9 @@ type Scenario struct {
 	DecoSeed       uint64   `json:"deco_seed"`
 	CRLF           bool     `json:"crlf,omitempty"`
 	NoFinalNL      bool     `json:"no_final_nl,omitempty"`
-	Break          int      `json:"break,omitempty"` // >0: token damage of kind Break-1 on line BreakLine (source must then fail to parse)
+	Bulk           int      `json:"bulk,omitempty"`       // >0: blocks of this many own-line comment lines are inserted (large files)
+	AsciiHead      int      `json:"ascii_head,omitempty"` // >0: the first AsciiHead bytes of the file are pure ASCII (filler comment lines), non-ASCII comments only after
+	Break          int      `json:"break,omitempty"`      // >0: token damage of kind Break-1 on line BreakLine (source must then fail to parse)
 	BreakLine      int      `json:"break_line,omitempty"`
 	Shape          string   `json:"argv_shape"` // none | src | src-dst | src-dst-lst | four | d-src-dst | v | help | badflag | d-only
 	SrcKind        string   `json:"src_kind"`
@@ -229,9 +231,25 @@ func (s *Scenario) materialise() (src []byte, plain []byte) {
 	}
 	r := NewRNG(s.DecoSeed)
 	var dl [][]byte
-	dl = append(dl, append([]byte("; "), commentText(r, s.Enc)...))
-	pl2 := [][]byte{[]byte("")}
+	pl2 := [][]byte{}
+	size := 0
+	encAt := func() string { // which encoding the next comment may use
+		if size < s.AsciiHead {
+			return "ascii"
+		}
+		return s.Enc
+	}
+	for size < s.AsciiHead { // ASCII-only head: the charset cannot be guessed from the beginning of the file
+		l := append([]byte("; "), commentText(r, "ascii")...)
+		l = append(l, " -- filler line of plain ASCII text to move the first Japanese comment further down"...)
+		dl = append(dl, l)
+		pl2 = append(pl2, []byte(""))
+		size += len(l) + 1
+	}
+	dl = append(dl, append([]byte("; "), commentText(r, encAt())...))
+	pl2 = append(pl2, []byte(""))
 	for _, l := range lines {
+		size += len(l) + 8
 		d := []byte(l)
 		if r.Chance(1, 2) {
 			mark := ";"
@@ -243,13 +261,19 @@ func (s *Scenario) materialise() (src []byte, plain []byte) {
 				sep = ""
 			}
 			d = append(d, (sep + mark + pick(r, []string{" ", "", "\t"}))...)
-			d = append(d, commentText(r, s.Enc)...)
+			d = append(d, commentText(r, encAt())...)
 		}
 		dl = append(dl, d)
 		pl2 = append(pl2, []byte(l))
 		if r.Chance(1, 8) { // own-line comment
-			dl = append(dl, append([]byte(pick(r, []string{";", "; ", "\t; ", "# "})), commentText(r, s.Enc)...))
+			dl = append(dl, append([]byte(pick(r, []string{";", "; ", "\t; ", "# "})), commentText(r, encAt())...))
 			pl2 = append(pl2, []byte(""))
+		}
+		if s.Bulk > 0 && r.Chance(1, 6) { // a block of comment lines: pushes the file past buffer sizes, shifts alignment
+			for k := 0; k < s.Bulk; k++ {
+				dl = append(dl, append([]byte("; "), commentText(r, encAt())...))
+				pl2 = append(pl2, []byte(""))
+			}
 		}
 	}
 	// The comment-free form keeps the same line structure (blank lines where own-line comments
@@ -420,6 +444,12 @@ func (s *Scenario) buildWorld(W string, src []byte, image []byte) (*worldPaths, 
 		os.Chmod(d, 0555)
 		dstAbs = filepath.Join(d, dstName)
 		dstArg = dstAbs
+	case "dir_no_search": // directory writable but not searchable for others
+		d := filepath.Join(W, "nosearch")
+		must(os.Mkdir(d, 0722))
+		os.Chmod(d, 0722)
+		dstAbs = filepath.Join(d, dstName)
+		dstArg = dstAbs
 	case "parent_missing":
 		dstAbs = filepath.Join(W, "nodir", "sub", dstName)
 		dstArg = dstAbs
@@ -482,6 +512,9 @@ func (s *Scenario) buildWorld(W string, src []byte, image []byte) (*worldPaths, 
 			if s.DstKind == "ro_dir" && p == filepath.Join(W, "rodir") {
 				return nil
 			}
+			if s.DstKind == "dir_no_search" && p == filepath.Join(W, "nosearch") {
+				return nil
+			}
 			os.Lchown(p, nobody, nobody)
 			return nil
 		})
@@ -511,6 +544,10 @@ func (s *Scenario) argv(wp *worldPaths) []string {
 		return []string{"--help"}
 	case "badflag":
 		return []string{"-x", wp.SrcArg, wp.DstArg}
+	case "src-dst-dashlst": // a list file whose name begins with '-' (legal after the first positional)
+		return []string{wp.SrcArg, wp.DstArg, "-list.lst"}
+	case "src-dst-v": // "-v" in list position is a file name, not the version flag
+		return []string{wp.SrcArg, wp.DstArg, "-v"}
 	}
 	panic(modelErr("unknown argv shape " + s.Shape))
 }
@@ -537,7 +574,7 @@ func (s *Scenario) dstCreatable() bool {
 	switch s.DstKind {
 	case "parent_missing", "parent_is_file", "is_dir", "longname", "emptyarg", "trailing_slash":
 		return false
-	case "ro_file", "ro_dir":
+	case "ro_file", "ro_dir", "dir_no_search":
 		return s.Uid == 0
 	}
 	return true
@@ -573,6 +610,7 @@ func (s *Scenario) expect(imageClass string, nlines int, fired int) expectation 
 		e.Pin, e.Why = "16", "R1: fewer than two positionals"
 		return e
 	case "src-dst":
+	case "src-dst-dashlst":
 	case "src-dst-lst":
 		if s.LstKind != "ok" && s.LstKind != "same_as_dst" && s.LstKind != "existing" {
 			e.Why = "third positional not creatable: only G1/G2"
@@ -626,11 +664,11 @@ func judge(s *Scenario, e expectation, o *ScenarioOutcome, image []byte, imageCl
 	if s.DstKind == "dev_null" {
 		// nothing can be read back; only the pinned status (R5: exit 0) applies
 	} else if s.DstKind == "dev_full" {
-		if o.Exit == 0 && imageClass == "ok" && len(image) > 0 && (s.Shape == "src-dst" || s.Shape == "src-dst-lst" || s.Shape == "d-src-dst" || s.Shape == "four") && s.srcReadable() {
+		if o.Exit == 0 && imageClass == "ok" && len(image) > 0 && (s.Shape == "src-dst" || s.Shape == "src-dst-lst" || s.Shape == "d-src-dst" || s.Shape == "four" || s.Shape == "src-dst-dashlst" || s.Shape == "src-dst-v") && s.srcReadable() {
 			return mk("G1-exit0-without-image", "exit 0 although the image cannot have been written to /dev/full", "non-zero status", "exit 0")
 		}
 	} else {
-		writes := s.Shape == "src-dst" || s.Shape == "src-dst-lst" || s.Shape == "d-src-dst" || s.Shape == "four" || s.Shape == "badflag"
+		writes := s.Shape == "src-dst" || s.Shape == "src-dst-lst" || s.Shape == "d-src-dst" || s.Shape == "four" || s.Shape == "badflag" || s.Shape == "src-dst-dashlst" || s.Shape == "src-dst-v"
 		if o.Exit == 0 && writes {
 			// G1: success means exactly the image
 			if imageClass == "ok" && o.DstPost != imgDesc {
